@@ -21,6 +21,26 @@ Theorem C20_source_reason_order : gen_reasons = std_reasons.
 Proof. exact gen_reasons_std. Qed.
 Print Assumptions C20_source_reason_order.
 
+Theorem C20_source_len_guards : gen_len_guards = true.
+Proof. exact gen_len_guards_present. Qed.
+Print Assumptions C20_source_len_guards.
+
+(* errors that are no replies (a failing producer): any text, also the empty one and texts shorter than a reply
+   code, is classified without indexing past its end: code 0 below three bytes, temporary iff the first byte
+   is '4', no enhanced status code for the empty text or a text that does not start like a reply *)
+Theorem C20_short_error_text : forall e, (length (err_string (unwrap1 e)) < 3)%nat -> error_code e = 0.
+Proof. exact error_code_short. Qed.
+Print Assumptions C20_short_error_text.
+
+Theorem C20_temp_first_byte : forall e,
+  is_temp_error true e = match err_string (unwrap1 e) with c :: _ => c =? 52 | [] => false end.
+Proof. exact is_temp_by_first_byte. Qed.
+Print Assumptions C20_temp_first_byte.
+
+Theorem C20_esc_empty_text : forall re e sup, err_string (unwrap1 e) = [] -> enhanced_status_code re e sup = [].
+Proof. exact enhanced_empty. Qed.
+Print Assumptions C20_esc_empty_text.
+
 (* every three-digit reply code: errorCode is the code for 4yz/5yz (0 otherwise), and the error is temporary
    exactly for 4yz — also for the wrapped error of the RSET after a delivered message *)
 Theorem C20_code : forall c t, 100 <= c <= 999 ->
